@@ -7,12 +7,15 @@
   premature EOF) it succeeds whenever the range fits — for any history and any schedule.
   Layer 2 (this file, proved): `open_stream` ≡ `minimal_parse` — same success set, same file header,
   and the stream's header vectors are exactly the entries of the slice parser's lazy tables.
-  Layer 3 (query-by-query refinement up to content equality): see the `*_refines` theorems below
-  for the queries proved so far; the others are validated by the correspondence harness against
-  both the model and the real `ElfBytes`; see DESIGN.md.
+  Layer 3 (this file, proved): query-by-query refinement up to content equality in every state
+  reachable from `open_stream` (any order, any repetition) for section data, the typed views
+  (strtab, rel, rela, notes), segment notes, the section-name string table, lookup by name, both
+  symbol tables, the dynamic table and the symbol version table.  The correspondence harness
+  compares the same queries between the model, the real `ElfStream` and the real `ElfBytes`.
 -/
 import ElfVerif.Lemmas.Stream
 import ElfVerif.Lemmas.OpenEquiv
+import ElfVerif.Lemmas.QueryEquiv
 namespace Elf.C07
 
 /- `Elf.SameBytes a b`: same length and same bytes (the stream hands out copies, so location is not
@@ -108,6 +111,139 @@ theorem open_ok_iff (sp : Spec) (dev : Device) (hl : Legal dev.sched) (hc63 : de
 /- Non-vacuity -/
 example : Legal [.short 2, .interrupted, .none] := by
   intro f hf; simp at hf; rcases hf with rfl | rfl | rfl <;> simp
+
+/-! ## Layer 3: every query, in any order, any number of times
+
+  `Sim s f c` (Lemmas/QueryEquiv.lean): stream state `s`, slice parser `f` and contents `c` agree —
+  `f` parses `c`, same file header, the header `Vec`s list the lazy tables' entries, and the reader
+  invariant `RInv` (cache = the file's bytes, legal schedule) holds.  `open_sim` establishes it,
+  `history_sim` keeps it through every history of queries whatever their outcomes, and each
+  `*_refines` theorem needs nothing else: so each holds in every reachable state.
+
+  Results are compared up to content: `SameBytes` for byte ranges, `IterSim`/`NoteSim`/`TableSim`/
+  `SymVerSim` for iterators and tables over them (same parser, byte order, class, cursor/count,
+  and `SameBytes` data) — the stream hands out copies, so addresses are not comparable; what an
+  iterator or table yields depends only on those components (`Iter.collect_congr`, `Table.get_congr`,
+  `parse_congr`, `strGet_congr`). -/
+
+/-- **Opening establishes the simulation.** -/
+theorem open_sim (sp : Spec) (dev : Device) (hl : Legal dev.sched) (hc63 : dev.content.size < 2 ^ 63)
+    (f : ElfBytes) (hf : minimalParse sp (Slice.ofArray dev.content) = .ok f) :
+    ∃ s d, openStream sp dev = (.ok s, d) ∧ Sim s f dev.content :=
+  Elf.open_sim sp dev hl hc63 f hf
+
+/-- **Any order, any number of times**: the simulation holds after every history of queries. -/
+theorem history_sim (qs : List Query) (s : ElfStream) (f : ElfBytes) (c : Array UInt8) (hs : Sim s f c) :
+    Sim (qs.foldl (fun s q => q.after s) s) f c :=
+  Elf.history_sim qs s f c hs
+
+/-- …and therefore in every state reachable from `open_stream` by queries. -/
+theorem reachable_sim (sp : Spec) (dev : Device) (hl : Legal dev.sched) (hc63 : dev.content.size < 2 ^ 63)
+    (f : ElfBytes) (hf : minimalParse sp (Slice.ofArray dev.content) = .ok f) (qs : List Query) :
+    ∃ s d, openStream sp dev = (.ok s, d) ∧ Sim (qs.foldl (fun s q => q.after s) s) f dev.content := by
+  obtain ⟨s, d, h1, h2⟩ := Elf.open_sim sp dev hl hc63 f hf
+  exact ⟨s, d, h1, Elf.history_sim qs s f _ h2⟩
+
+/-- `section_data` (sections not flagged `SHF_COMPRESSED`, `SHT_NOBITS` included) -/
+theorem section_data_refines (s : ElfStream) (f : ElfBytes) (c : Array UInt8) (hs : Sim s f c) (sh : SectionHeader)
+    (hnc : sh.sh_flags &&& Abi.SHF_COMPRESSED = 0) (w : Slice) (ch : Option CompressionHeader)
+    (h : f.sectionData sh = .ok (w, ch)) :
+    ∃ b s', s.sectionData sh = (.ok (b, ch), s') ∧ SameBytes b w ∧ Sim s' f c :=
+  sectionData_refines s f c hs sh hnc w ch h
+
+/-- `section_data_as_strtab` -/
+theorem section_strtab_refines (s : ElfStream) (f : ElfBytes) (c : Array UInt8) (hs : Sim s f c) (sh : SectionHeader)
+    (hnc : sh.sh_flags &&& Abi.SHF_COMPRESSED = 0) (w : Slice) (h : f.sectionDataAsStrtab sh = .ok w) :
+    ∃ b s', s.sectionDataAsStrtab sh = (.ok b, s') ∧ SameBytes b w ∧ Sim s' f c :=
+  strtab_refines s f c hs sh hnc w h
+
+/-- `section_data_as_rels` / `section_data_as_relas` (relocations) -/
+theorem section_rels_refines (s : ElfStream) (f : ElfBytes) (c : Array UInt8) (hs : Sim s f c) (sh : SectionHeader)
+    (hnc : sh.sh_flags &&& Abi.SHF_COMPRESSED = 0) (it : Iter Rel) (h : f.sectionDataAsRels sh = .ok it) :
+    ∃ it' s', s.sectionDataAsRels sh = (.ok it', s') ∧ IterSim it' it ∧ Sim s' f c :=
+  rels_refines s f c hs sh hnc it h
+
+theorem section_relas_refines (s : ElfStream) (f : ElfBytes) (c : Array UInt8) (hs : Sim s f c) (sh : SectionHeader)
+    (hnc : sh.sh_flags &&& Abi.SHF_COMPRESSED = 0) (it : Iter Rela) (h : f.sectionDataAsRelas sh = .ok it) :
+    ∃ it' s', s.sectionDataAsRelas sh = (.ok it', s') ∧ IterSim it' it ∧ Sim s' f c :=
+  relas_refines s f c hs sh hnc it h
+
+/-- `section_data_as_notes` / `segment_data_as_notes` -/
+theorem section_notes_refines (s : ElfStream) (f : ElfBytes) (c : Array UInt8) (hs : Sim s f c) (sh : SectionHeader)
+    (hnc : sh.sh_flags &&& Abi.SHF_COMPRESSED = 0) (it : NoteIter) (h : f.sectionDataAsNotes sh = .ok it) :
+    ∃ it' s', s.sectionDataAsNotes sh = (.ok it', s') ∧ NoteSim it' it ∧ Sim s' f c :=
+  Elf.section_notes_refines s f c hs sh hnc it h
+
+theorem segment_notes_refines (s : ElfStream) (f : ElfBytes) (c : Array UInt8) (hs : Sim s f c) (ph : ProgramHeader)
+    (it : NoteIter) (h : f.segmentDataAsNotes ph = .ok it) :
+    ∃ it' s', s.segmentDataAsNotes ph = (.ok it', s') ∧ NoteSim it' it ∧ Sim s' f c :=
+  Elf.segment_notes_refines s f c hs ph it h
+
+/-- `section_headers_with_strtab` (the section-name string table) -/
+theorem shstrtab_refines (s : ElfStream) (f : ElfBytes) (c : Array UInt8) (hs : Sim s f c)
+    (ot : Option (Table SectionHeader)) (ostr : Option Slice)
+    (h : f.sectionHeadersWithStrtab = .ok (ot, ostr)) :
+    ∃ o' s', s.sectionHeadersWithStrtab = (.ok o', s') ∧ OptSame o' ostr ∧ Sim s' f c ∧ ot = f.shdrs :=
+  strtabLookup_refines s f c hs ot ostr h
+
+/-- `section_header_by_name` (name lookup): the very same header, or the same `None` -/
+theorem by_name_refines (s : ElfStream) (f : ElfBytes) (c : Array UInt8) (hs : Sim s f c) (name : Slice)
+    (o : Option SectionHeader) (h : f.sectionHeaderByName name = .ok o) :
+    ∃ s', s.sectionHeaderByName name = (.ok o, s') ∧ Sim s' f c :=
+  byName_refines s f c hs name o h
+
+/-- `symbol_table` and `dynamic_symbol_table` (`ty = SHT_SYMTAB` / `SHT_DYNSYM`) -/
+theorem symbol_table_refines (s : ElfStream) (f : ElfBytes) (c : Array UInt8) (hs : Sim s f c) (ty : Nat)
+    (o : Option (Table Symbol × Slice)) (h : f.symbolTableOfType ty = .ok o) :
+    ∃ o' s', s.symbolTableOfType ty = (.ok o', s') ∧ Sim s' f c ∧
+      (match o, o' with
+       | none, none => True
+       | some (t, st), some (t', st') => TableSim t' t ∧ SameBytes st' st
+       | _, _ => False) :=
+  symtab_refines s f c hs ty o h
+
+/-- `dynamic` — scoped, as the property is, to files whose section header table is absent or
+    non-empty and to an uncompressed `.dynamic` section -/
+theorem dynamic_table_refines (s : ElfStream) (f : ElfBytes) (c : Array UInt8) (hs : Sim s f c)
+    (hscope : f.shdrs = none ∨ s.shdrs ≠ [])
+    (hnc : ∀ sh, s.shdrs.find? (fun sh => sh.sh_type == Abi.SHT_DYNAMIC) = some sh →
+      sh.sh_flags &&& Abi.SHF_COMPRESSED = 0)
+    (o : Option (Table Dyn)) (h : f.dynamic = .ok o) :
+    ∃ o' s', s.dynamic = (.ok o', s') ∧ Sim s' f c ∧
+      (match o, o' with
+       | none, none => True
+       | some t, some t' => TableSim t' t
+       | _, _ => False) :=
+  dynamic_refines s f c hs hscope hnc o h
+
+/-- `symbol_version_table` -/
+theorem symbol_version_table_refines (s : ElfStream) (f : ElfBytes) (c : Array UInt8) (hs : Sim s f c)
+    (o : Option SymbolVersionTable) (h : f.symbolVersionTable = .ok o) :
+    ∃ o' s', s.symbolVersionTable = (.ok o', s') ∧ Sim s' f c ∧
+      (match o, o' with
+       | none, none => True
+       | some t, some t' => SymVerSim t' t
+       | _, _ => False) :=
+  symver_refines s f c hs o h
+
+/- The scoping of `dynamic_table_refines` is necessary, not a proof artefact: on this 184-byte
+   file (section header table present but empty: `e_shoff ≠ 0`, `e_shnum = 0`, `shdr[0].sh_size = 0`;
+   one `PT_DYNAMIC` segment) the slice parser answers `None` from the empty section table while the
+   stream parser falls through to the segments and answers `Some`. -/
+def scopeFile : Array UInt8 := #[0x7f,0x45,0x4c,0x46, 2,1,1,0, 0,0,0,0,0,0,0,0,
+  2,0, 62,0, 1,0,0,0, 0,0,0,0,0,0,0,0, 128,0,0,0,0,0,0,0, 64,0,0,0,0,0,0,0, 0,0,0,0, 64,0, 56,0, 1,0, 64,0, 0,0, 0,0,
+  -- shdr[0] (all zero: sh_size = 0 ⇒ zero sections)
+  0,0,0,0, 0,0,0,0, 0,0,0,0,0,0,0,0, 0,0,0,0,0,0,0,0, 0,0,0,0,0,0,0,0, 0,0,0,0,0,0,0,0, 0,0,0,0, 0,0,0,0, 0,0,0,0,0,0,0,0, 0,0,0,0,0,0,0,0,
+  -- phdr[0]: PT_DYNAMIC, offset 0, filesz 16
+  2,0,0,0, 0,0,0,0, 0,0,0,0,0,0,0,0, 0,0,0,0,0,0,0,0, 0,0,0,0,0,0,0,0, 16,0,0,0,0,0,0,0, 16,0,0,0,0,0,0,0, 8,0,0,0,0,0,0,0]
+set_option maxRecDepth 4096 in
+example : scopeFile.size = 184 := by decide +kernel
+example : (match minimalParse .any (Slice.ofArray scopeFile) with
+    | .ok f => (match f.dynamic with | .ok none => f.shdrs.isSome | _ => false)
+    | _ => false) = true := by decide +kernel
+example : (match (openStream .any ⟨scopeFile, 0, [], []⟩).1 with
+    | .ok s => (match s.dynamic.1 with | .ok (some _) => s.shdrs.isEmpty | _ => false)
+    | _ => false) = true := by decide +kernel
 
 /-- a 64-byte ELF64 little-endian header with no tables -/
 def hdr64 : Array UInt8 := #[0x7f,0x45,0x4c,0x46, 2,1,1,0, 0,0,0,0,0,0,0,0,
